@@ -195,12 +195,13 @@ pub fn many<const N: usize>(fragmented: bool) {
     raw_close(ded.0);
     raw_close(ded.1);
     // a hanging receiver is a violation only while the sender's contract is kept
-    env::set_block_is_violation(N + (fragmented as usize) <= 64);
+    env::set_block_is_violation(N + (fragmented as usize) <= ph::max_fds_in_cmsg());
     let r = rx.recv();
     // A header packet with at most 64 descriptors in all (the bound `send_many_*` shows the sender
     // keeps) must come out complete.  More than that is outside the sender's contract: there only
     // memory safety is examined (CBMC's checks over the control-buffer parsing, C18).
-    if N + (fragmented as usize) <= 64 {
+    let cap = ph::max_fds_in_cmsg();
+    if N + (fragmented as usize) <= cap {
         let (got, ch, _) = r.unwrap();
         assert!(got.len() == total && got[0] == data[0], "C15: payload");
         assert!(ch.len() == N, "C15: message delivered with attachments missing or mis-assigned");
